@@ -1083,11 +1083,11 @@ def dispatch_call(ex, fn, args, kw):
     info = ex.world.funcinfo(fn)
     if info is not None:
         return call_info(ex, info, fn, args, kw)
-    if isinstance(fn, type):
-        return instantiate(ex, fn, args, kw)
     r = aio.maybe_model(ex, fn, args, kw)
     if r is not aio.NOT_MODELLED:
         return r
+    if isinstance(fn, type):
+        return instantiate(ex, fn, args, kw)
     if symbolic:
         ok = False
         if hashable and fn in TRANSPARENT:
